@@ -1,8 +1,7 @@
 (** C13 — Session and link lifecycles.  The theorems are about the session
-    lifecycle model Session/Lifecycle.v (run against the real session engine on
-    scripts every run); the link clauses are checked on the implementation by the
-    direct oracle only (see DESIGN.md). *)
-From FV Require Import Session.SessLife Proofs.SessionLifeProofs.
+    lifecycle model Session/SessLife.v and the sender-link lifecycle model
+    Link/LinkLife.v (both run against the real engines on scripts every run). *)
+From FV Require Import Session.SessLife Proofs.SessionLifeProofs Link.LinkLife Proofs.LinkLifeProofs.
 
 (** For every interleaving of local calls (begin, end, end_with_error, drop,
     cancelled end) and a protocol-abiding peer: the session writes one begin,
@@ -34,3 +33,54 @@ Print Assumptions C13_end_returns_after_peer.
 Example C13_clean_end : srun SNone [SBegin; SPBegin; SEnd; SPEnd false] =
   (SEnded SOk SHReported, [[WBegin]; [DBegin]; [WEnd false]; [DEnd SOk]]).
 Proof. exact clean_end. Qed.
+
+(** ** Link clauses (model Link/LinkLife.v of the sending link).
+
+    The model is faithful to the code, and the code does not meet every link clause: the clauses that hold are
+    theorems, the others are stated with the exact exception and a refutation witness (each witness is a
+    known finding replayed on the implementation by the [life] harness). *)
+
+(** Once the link has written its detach it writes no transfer and no second detach - except in the one
+    transition [second_detach] (close() answered by a non-closing detach: the code re-attaches/closes again). *)
+Theorem C13_link_after_detach_partial :
+  forall s e, detached_locally s = true -> second_detach s e = false ->
+    existsb is_xfer (snd (lkstep s e)) = false /\ (existsb is_det (snd (lkstep s e)) = true -> False).
+Proof. exact after_detach_quiet. Qed.
+Print Assumptions C13_link_after_detach_partial.
+
+Theorem C13_link_second_detach_refuted :
+  exists es, let os := concat (snd (lkrun LAttSent es)) in
+    length (filter is_det os) = 2%nat /\ length (filter is_att os) = 0%nat.
+Proof. exact second_detach_refutes. Qed.
+
+(** A peer detach not yet seen by the application is answered by its next operation on the link (unless
+    that is a send() with credit in hand), in kind for close(), drop and a blocked send(). *)
+Theorem C13_link_peer_detach_answered_partial :
+  (forall k c e, next_op e = true -> (e = VSend -> c = false) ->
+     existsb is_det (snd (lkstep (LIdle (Some k) c) e)) = true) /\
+  (forall k c e, (e = VClose \/ e = VDrop \/ (e = VSend /\ c = false)) ->
+     In (XDetach (answer k)) (snd (lkstep (LIdle (Some k) c) e)) \/ In (XDetach true) (snd (lkstep (LIdle (Some k) c) e))).
+Proof. split; [exact peer_detach_answered|exact answered_in_kind]. Qed.
+Print Assumptions C13_link_peer_detach_answered_partial.
+
+Theorem C13_link_answer_in_kind_refuted : forall c,
+  snd (lkstep (LIdle (Some KClose) c) VDetach) = [XDetach false; DDetach (Some RDetachedByRemote)].
+Proof. exact detach_not_in_kind_refutes. Qed.
+
+(** detach()/close() return only in the step that consumes the peer's detach or when it had arrived before;
+    the peer's error is what close() and a blocked send() report. *)
+Theorem C13_link_returns_after_peer :
+  (forall s e r, (In (DDetach r) (snd (lkstep s e)) \/ In (DClose r) (snd (lkstep s e))) ->
+     (exists k, e = VPDetach k /\ (s = LDetSent \/ s = LClsSent)) \/
+     (exists k c, s = LIdle (Some k) c) \/ (exists c, s = LDetached c)) /\
+  (forall s r, In (DClose r) (snd (lkstep s (VPDetach KCloseErr))) -> r = Some RRemoteClosedWithError) /\
+  (forall c, In (DSend (Some RRemoteClosedWithError)) (snd (lkstep (LIdle (Some KCloseErr) false) VSend)) /\
+             In (DClose (Some RRemoteClosedWithError)) (snd (lkstep (LIdle (Some KCloseErr) c) VClose))).
+Proof. split; [exact detach_close_wait|]. split; [exact peer_error_to_close|exact peer_error_to_send]. Qed.
+Print Assumptions C13_link_returns_after_peer.
+
+Example C13_link_clean :
+  snd (lkrun LAttSent [VPAttach; VDetach; VPDetach KDetach]) = [[DAttach]; [XDetach false]; [DDetach None]] /\
+  snd (lkrun LAttSent [VPAttach; VPFlow; VSend; VPAccept; VClose; VPDetach KClose]) =
+    [[DAttach]; []; [XTransfer]; [DSend None]; [XDetach true]; [DClose None]].
+Proof. exact clean_detach_close. Qed.
